@@ -273,10 +273,14 @@ def _pipes():
         "roots": (False, lambda h, ks: fuse_roots(optimize_blockwise(h, keys=ks), ks)),
         "array": (False, lambda h, ks: fuse_roots(optimize_blockwise(h, keys=ks), ks).cull(set(ks))),
         "cullopt": (False, lambda h, ks: optimize_blockwise(h.cull(set(ks)), keys=ks)),
+        # fusion must not change the graph it was given: optimize, then evaluate the ORIGINAL graph
+        "optorig": (False, lambda h, ks: (fuse_roots(optimize_blockwise(h, keys=ks), ks), h)[1]),
     }
 
 
-PIPE_NAMES = ["cull", "cull2", "opt", "roots", "array", "cullopt"]
+PIPE_NAMES = ["cull", "cull2", "opt", "roots", "array", "cullopt", "optorig"]
+CULLING = ("cull", "cull2", "array", "cullopt")
+FUSING = ("opt", "roots", "array", "optorig")
 
 
 def _getter(variant):
@@ -517,23 +521,35 @@ def features(stack):
                     fs.add("transpose")
         if L["nax"]:
             fs.add("newaxis")
+    # a new axis of an earlier layer that a later layer broadcasts against an index with more blocks
+    for M in stack["layers"]:
+        for na in M["nax"]:
+            q = M["oi"].index(na["ix"])
+            for L in stack["layers"]:
+                for a in L["args"]:
+                    if a["k"] == "coll" and a["name"] == M["out"] and a["nb"][q] == 1 and dim_of(L, a["ind"][q]) > 1:
+                        fs.add("newaxis-broadcast")
     return fs
 
 
 def classify(stack, clause, detail):
-    """Signature = failing clause + pipeline / layer kind + the first structural class of the stack that applies
-    (the classes behind recorded findings come first)."""
+    """Signature = the root-cause class when the stack belongs to one behind a recorded finding and the failing
+    clause / pipeline fits it, otherwise failing clause + pipeline + the first structural class that applies."""
     fs = features(stack)
-    if clause in ("LD", "CK", "CV") and "alias-key" in fs:
+    if clause in ("RZ", "FV") and detail in FUSING + ("fuse",) and "newaxis-broadcast" in fs:
+        return "fuse:newaxis-broadcast"
+    if "alias-key" in fs and (clause in ("LD", "CK", "CV") or (clause == "RZ" and detail in CULLING)):
         return "cull:alias-constant-dependency"
     if "callable-ann" in fs and clause in ("RZ", "FA"):
         return "fuse:callable-annotation"
-    if clause == "FA" and detail in ("roots", "array"):
-        return "fuse_roots:annotations"
-    for f in ("alias-key", "callable-ann", "concatenate", "contraction", "newaxis", "broadcast", "blockindex", "transpose", "ref-key", "ann"):
+    if clause == "FA" and detail in ("roots", "array", "optorig"):
+        return "fuse_roots:annotations-dropped"
+    where = "layer" if clause == "LD" else detail
+    for f in ("alias-key", "callable-ann", "newaxis-broadcast", "concatenate", "contraction", "newaxis", "broadcast", "blockindex",
+              "transpose", "ref-key", "ann"):
         if f in fs:
-            return "%s:%s:%s" % (clause, detail if clause != "LD" else "layer", f)
-    return "%s:%s:elementwise" % (clause, detail if clause != "LD" else "layer")
+            return "%s:%s:%s" % (clause, where, f)
+    return "%s:%s:elementwise" % (clause, where)
 
 
 # ---------------------------------------------------------------- replay of enumerated cases
@@ -636,13 +652,13 @@ def validate_records(ctx, triples, label, report=True):
             out[i] = tl
             if pyc is None and report:
                 for cl in tl:
-                    detail = _detail(obs, cl)
+                    detail = _detail(obs, cl, stack)
                     ctx.violation(classify(stack, cl, detail), "%s: %s" % (cl, CLAUSES[cl]),
                                   {"stack": stack, "req": req, "variant": variant, "pipes": [p["p"] for p in obs["pipes"]], "clauses": tl})
     return out
 
 
-def _detail(obs, cl):
+def _detail(obs, cl, stack=None):
     """Which pipeline / layer a TLC clause is about (recomputed from the observation, for the signature only)."""
     if cl == "RZ":
         if obs["err"]:
@@ -653,8 +669,11 @@ def _detail(obs, cl):
     if cl == "FV":
         return "fuse"
     if cl == "FA":
-        ps = sorted({f["p"] for f in obs["fused"]})
-        return "roots" if ps and all(p in ("roots", "array") for p in ps) else "fuse"
+        # which fused layer is the offending one is recomputed with the Python twin - for the signature only
+        for f in obs["fused"]:
+            if stack is not None and (f["ann"]["bad"] or not fuse_ann_ok(f["ann"], [_coll_ann(stack, n) for n in f["group"]])):
+                return f["p"]
+        return "fuse"
     return "base" if cl == "DN" else "layer"
 
 
@@ -828,11 +847,12 @@ def _leafconf(*ls):
     return "<<%s>>" % ",".join('[name |-> "%s", nb |-> <<%s>>]' % (n, ",".join(map(str, nb))) for n, nb in ls)
 
 
-def mc_constants(ctx, leafconfs, max_layers, mods, decos, reqcap):
+def mc_constants(ctx, leafconfs, max_layers, mods, patmods, decos, reqcap):
     return {"LeafConfs": TLA("{%s}" % ",".join(leafconfs)), "Consts": TLA('<<"c0">>'),
             "Pats": TLA("{%s}" % ",".join(_pat(i + 1, *p) for i, p in enumerate(PATTERNS))),
             "NewN": TLA("{1, 2}"), "Decos": TLA("{%s}" % ",".join('"%s"' % d for d in decos)),
-            "MaxLayers": max_layers, "Mods": TLA("<<%s>>" % ",".join(map(str, mods))), "Salt": ctx.seed % 997 + 5, "ReqCap": reqcap}
+            "MaxLayers": max_layers, "Mods": TLA("<<%s>>" % ",".join(map(str, mods))),
+            "PatMods": TLA("<<%s>>" % ",".join(map(str, patmods))), "Salt": ctx.seed % 997 + 5, "ReqCap": reqcap}
 
 
 MC_INVS = ["WellFormed", "DepsInRange", "DepsAcyclic", "CullLeast", "OutCount"]
@@ -848,35 +868,36 @@ def run(ctx):
     xval = []
     if quick:
         confs = [([_leafconf(("A", (2, 2)), ("B", (2,))), _leafconf(("A", (1, 2)), ("B", (2, 2))), _leafconf(("A", (2,)), ("B", (1,)))],
-                  3, [1, 24, 60], ALL_DECOS, 4)]
+                  3, [2, 60, 120], [1, 4, 8], ALL_DECOS, 4)]
     else:
         nb2 = [(a, b) for a in (1, 2, 3) for b in (1, 2, 3)]
         pairs = [_leafconf(("A", x), ("B", y)) for x in nb2 for y in [(1,), (2,), (3,)] if max(x) >= 2 or max(y) >= 2][:18]
         pairs += [_leafconf(("A", x), ("B", y)) for x in [(2, 2), (1, 3), (3, 2)] for y in [(2, 2), (2, 3), (3, 1)]]
         pairs += [_leafconf(("A", (n,)), ("B", (m,))) for n in (1, 2, 3) for m in (2, 3)]
-        confs = [(pairs, 3, [1, 12, 60], ALL_DECOS, 4)]
-    for leafconfs, depth, mods, decos, reqcap in confs:
-        spec, cfg = ctx.model(ctx.spec("graph", "BlockwiseMC.tla"), mc_constants(ctx, leafconfs, depth, mods, decos, reqcap),
+        confs = [(pairs, 3, [1, 12, 60], [1, 2, 4], ALL_DECOS, 4)]
+    for leafconfs, depth, mods, patmods, decos, reqcap in confs:
+        spec, cfg = ctx.model(ctx.spec("graph", "BlockwiseMC.tla"), mc_constants(ctx, leafconfs, depth, mods, patmods, decos, reqcap),
                               invariants=MC_INVS)
-        cases, _r = ctx.tlc_cases(spec, cfg, label="design+cases:stacks depth<=%d mods=%s" % (depth, mods), timeout=3000, **TLC_OPTS)
+        cases, _r = ctx.tlc_cases(spec, cfg, label="design+cases:stacks depth<=%d mods=%s patmods=%s" % (depth, mods, patmods), timeout=3000, **TLC_OPTS)
         total += len(cases)
-        kept, broken = replay_cases(ctx, cases, ctx.pick(3, 0), ctx.pick(2, 0), keep=ctx.pick(400, 3000))
+        kept, broken = replay_cases(ctx, cases, ctx.pick(2, 0), ctx.pick(2, 0), keep=ctx.pick(300, 3000))
         for c in cases[:2]:
             ctx.sample({"stack": c["st"], "denotes": c["den"], "request": c["reqs"][0]})
         xval += kept + broken
         del cases
     # annotations: design check of FuseAnn + cases
     ann_cases = []
-    for mode, mods in (("perkey", [1, 1, 1]), ("mixed", ctx.pick([16, 54, 54], [4, 36, 36]))):
+    for mode, mods in (("perkey", [1, 1, 1]), ("mixed", ctx.pick([36, 54, 54], [4, 36, 36]))):
         spec, cfg = ctx.model(ctx.spec("graph", "BlockwiseAnnMC.tla"),
-                              {"Mode": mode, "MaxLayers": 3, "Mods": TLA("<<%s>>" % ",".join(map(str, mods))), "Salt": ctx.seed % 997 + 3},
+                              {"Mode": mode, "MaxLayers": 3, "Mods": TLA("<<%s>>" % ",".join(map(str, mods))),
+            "Salt": ctx.seed % 997 + 3},
                               invariants=ANN_INVS)
         cs, _r = ctx.tlc_cases(spec, cfg, label="design+cases:annotations " + mode, timeout=1800, **TLC_OPTS)
         ann_cases += cs
     total += len(ann_cases)
     items = ann_items(ctx, ann_cases, CALLABLE_ANNS)
     # code -> spec: random larger stacks
-    nrand = ctx.pick(1200, 12000)
+    nrand = ctx.pick(600, 12000)
     for _ in range(nrand):
         st = random_stack(ctx.rng, ctx.pick(3, 4))
         req = random_request(ctx.rng, st)
@@ -1017,7 +1038,7 @@ def selftest(ctx):
     for (title, _m, _n, _o, _w, expect), (_t, recs), rej in zip(mutants, batches[1:], per[1:]):
         seen = sorted({c for cl in rej.values() for c in cl})
         hit = bool(rej) and bool(set(seen) & expect)
-        sigs = sorted({classify(recs[i][0], c, _detail(recs[i][2], c)) for i, cl in rej.items() for c in cl})[:3]
+        sigs = sorted({classify(recs[i][0], c, _detail(recs[i][2], c, recs[i][0])) for i, cl in rej.items() for c in cl})[:3]
         print("selftest C10 mutant [%s]: %s (%d of %d records rejected, clauses %s; e.g. %s)"
               % (title, "DETECTED" if hit else "MISSED", len(rej), len(recs), seen, sigs))
         ok &= bool(hit)
